@@ -303,27 +303,31 @@ def check_handle_coupled(ck, fn):
         else:
             ck.ok("HANDLE-COUPLED", tag, "%d heap_ stores followed by a full re-index loop over [0, heap_.size())" % len(stores))
         return
-    lists = stmt_list(fn)
     bad = False
+    g = cfgm.CFG(fn)
     for x, (idx, val) in stores:
-        okk = False
-        for flat in lists:
-            for i, s in enumerate(flat):
-                if s is x or any(y is x for y in ir.walk(s)):
-                    for nb in flat[max(0, i - 1): i + 2]:
-                        for y in ir.walk(nb):
-                            hs = handles_store(y)
-                            if hs and match.same_expr(hs[1], idx):
-                                k = hs[0]
-                                hk = heap_index(k)
-                                v = strip_casts(val)
-                                mv = match.call_named(v, ("move",))
-                                vv = kids(mv)[-1] if mv else v
-                                if (hk is not None and match.same_expr(hk, idx)) or match.same_expr(k, vv):
-                                    okk = True
+        # handles_ stores that record position idx for the key now at heap_[idx] (or for the stored value itself)
+        v = strip_casts(val)
+        mv = match.call_named(v, ("move",))
+        vv = kids(mv)[-1] if mv else v
+        after, before = [], []
+        for y in ir.walk(fn.body):
+            hs = handles_store(y)
+            if not hs or not match.same_expr(hs[1], idx):
+                continue
+            hk = heap_index(hs[0])
+            if hk is not None and match.same_expr(hk, idx):
+                after.append(y)              # handles_[heap_[idx]] = idx: meaningful once the store has happened
+            elif match.same_expr(hs[0], vv):
+                after.append(y)              # handles_[value] = idx: meaningful on either side of the store
+                before.append(y)
+        px = g.pos_deep(x)
+        pa = [g.pos_deep(y) for y in after if g.pos_deep(y) is not None]
+        pb = [g.pos_deep(y) for y in before if g.pos_deep(y) is not None]
+        okk = px is not None and ((pa and g.path_avoiding(px, pa) is None) or (pb and g.path_from_entry_avoiding(px, pb) is None))
         if not okk:
             ck.violation("HANDLE-COUPLED", fn.qname, fn.name + ":store:" + dtable.describe(idx),
-                         "heap_[%s] is overwritten without recording the new position of that key in handles_" % dtable.describe(idx), fn.nloc(x))
+                         "heap_[%s] is overwritten and a path to the exit does not record the new position of that key in handles_" % dtable.describe(idx), fn.nloc(x))
             bad = True
     for x in swaps:
         # swap(heap_[h], heap_.back()): the key now at h needs handles_[heap_[h]] = h, the key at the back is about to leave
@@ -458,6 +462,28 @@ def bucket_index(e):
     return None
 
 
+def with_helpers(tu, fn):
+    """nodes of fn's body, plus the nodes of the private helpers of the same class that fn calls on *this (one level), each
+    with the substitution {helper parameter id: argument expression at the call}"""
+    out = [(y, None) for y in ir.walk(fn.body)]
+    for c in ir.walk(fn.body):
+        if "callee" in c and c.get("member_call") and kids(c) and strip_casts(kids(c)[0])["k"] == "This":
+            cal = tu.by_did.get(c["callee"]["did"])
+            if cal is None or cal.body is None or cal.did == fn.did or cal.record != fn.record:
+                continue
+            sub = {p["did"]: a for p, a in zip(cal.params, kids(c)[1:])}
+            out += [(y, sub) for y in ir.walk(cal.body)]
+    return out
+
+
+def same_through(e, idx, sub):
+    """e (possibly a helper's parameter standing for the caller's argument) denotes the same expression as idx"""
+    d = ref_of(e)
+    if sub and d is not None and d in sub:
+        return match.same_expr(sub[d], idx)
+    return match.same_expr(e, idx)
+
+
 def check_radix_coupled(ck, tu):
     fns = [f for f in tu.find(record=RH)]
     ck.require(fns, "RadixHeap not instantiated")
@@ -535,14 +561,16 @@ def check_radix_coupled(ck, tu):
             if fn.name == "clear":
                 continue
             n_del += 1
-            cb = [y for y in ir.walk(fn.body) if "callee" in y and match.call_named(y, ("clear_bit",)) and match.this_field(kids(y)[0]) == "filled_"
-                  and match.same_expr(kids(y)[1], idx)]
+            scope = with_helpers(tu, fn)
+            cb = [y for y, sub in scope if "callee" in y and match.call_named(y, ("clear_bit",)) and match.this_field(kids(y)[0]) == "filled_"
+                  and same_through(kids(y)[1], idx, sub)]
+            cb_here = [y for y in cb if fn.byid(y["id"]) is y]
             okb = bool(cb)
             if c["callee"]["name"] == "pop_back":
                 # clear_bit only if the bucket became empty; --size_
                 okb = okb and any(match.unop(y, ("--",)) and match.this_field(match.unop(y, ("--",))[1]) == "size_" for y in ir.walk(fn.body))
                 cnd_ok = False
-                for y in cb:
+                for y in cb_here:
                     par = fn.parent(y)
                     while par is not None and par["k"] != "IfStmt":
                         par = fn.parent(par)
@@ -554,11 +582,11 @@ def check_radix_coupled(ck, tu):
             else:
                 # clear of a drained bucket: its minimum must be reset too
                 okm = False
-                for y in ir.walk(fn.body):
+                for y, sub in scope:
                     b = match.binop(y, ("=",))
                     if b:
                         p = match.index_parts(b[1])
-                        if p and match.this_field(p[0]) == "mins_" and match.same_expr(p[1], idx) and match.call_named(b[2], ("max",)):
+                        if p and match.this_field(p[0]) == "mins_" and same_through(p[1], idx, sub) and match.call_named(b[2], ("max",)):
                             okm = True
                 okb = okb and okm
             if okb:
